@@ -190,6 +190,7 @@ def main(argv=None):
     for ent, v in known.values():
         print(f"KNOWN-FINDING: property={prop} {ent['id']}: {ent['what']}")
     reported = []
+    unreproduced = []
     for key, v in list(unlisted.items())[:MAX_REPORT]:
         path = replay_path(prop, v)
         rec = {"property": prop, "site": v["site"], "mode": v["mode"], "detail": v["detail"],
@@ -204,13 +205,18 @@ def main(argv=None):
             rc = max(rc, 2)
             continue
         if not any(vkey(x) == key for x in rr["violations"]):
-            print(f"BROKEN: violation {key} did not reproduce in isolation (replay {path})")
-            rc = max(rc, 2)
+            unreproduced.append(f"violation {key} did not reproduce in isolation (replay {path})")
             continue
         print(f"  site={v['site']} mode={v['mode']} detail={v['detail'][:300]}")
         print(f"VIOLATION property={prop} replay={path}")
         reported.append(key)
         rc = max(rc, 1)
+    for u in unreproduced:
+        # a failure that does not repeat is only believed when another one does (the library orders some sets of
+        # objects by address, which no hash seed controls)
+        print(("NOTE: " if reported else "BROKEN: ") + u)
+        if not reported:
+            rc = max(rc, 2)
     if nondet:
         for nd in nondet[:3]:
             print("NOTE:", nd)
